@@ -20,7 +20,7 @@ BUILDS = ["jellyfysh/scheduler/heap_scheduler/heap_build.py",
           "jellyfysh/potential/merged_image_coulomb_potential/merged_image_coulomb_potential_build.py",
           "jellyfysh/potential/inverse_power_coulomb_bounding_potential/inverse_power_coulomb_bounding_potential_build.py"]
 # which checks to try for a change seeded against property P (its own check first, then the neighbours that share machinery)
-ALSO = {"C07x": [], "C01": ["C02", "C04", "C05"], "C07": ["C19", "C06", "C16"], "C08": ["C06", "C19", "C20"], "C17": ["C19", "C20", "C07"], "C04": ["C03"], "C14": ["C06", "C19"], "C03": ["C19", "C04"],
+ALSO = {"C01": ["C02", "C04", "C05"], "C07": ["C19", "C06", "C16"], "C08": ["C06", "C19", "C20"], "C17": ["C19", "C20", "C07"], "C04": ["C03"], "C14": ["C06", "C19"], "C03": ["C19", "C04"],
         "C09": ["C11", "C10", "C19"], "C10": ["C11"], "C12": ["C13"]}
 
 
